@@ -469,6 +469,24 @@ fn define_inherent_impl(
             ));
             continue;
         }
+        // An earlier impl block for the same type may already define the method.
+        let already_defined = env
+            .current()
+            .trait_env
+            .inherent_impls
+            .get(&key)
+            .is_some_and(|def| def.methods.contains_key(&method_name_str));
+        if already_defined {
+            diagnostics.push(Diagnostic::new(
+                Stage::Typer,
+                Severity::Error,
+                format!(
+                    "Method {} is already defined for {:?}",
+                    method_name_str, for_ty
+                ),
+            ));
+            continue;
+        }
 
         // Combine impl generics and method generics
         let mut all_generics = impl_block.generics.clone();
